@@ -9,8 +9,9 @@
 //!   vector `+0` or `-0`, or as a 16-bit zero; a delta of 1‥255 in magnitude as a short vector
 //!   with sign bit or as a 16-bit value; larger deltas as 16-bit values;
 //! * flags: runs of identical flag bytes may be written one by one, as one REPEAT_FLAG run, or
-//!   split into several runs (a repeat count of 0 is also legal); runs ignore contour
-//!   boundaries because flags are stored per point, not per contour;
+//!   split into several runs (a repeat count of 0 is also legal); a run covers at most 256
+//!   points (count byte 255), longer stretches continue with a new flag byte; runs ignore
+//!   contour boundaries because flags are stored per point, not per contour;
 //! * OVERLAP_SIMPLE on the first flag byte, instructions;
 //! * component arguments as bytes (when both fit) or words; a transform may be stored in a
 //!   wider form than necessary (none → scale 1.0 → x/y scale → 2×2 with zero off-diagonals);
@@ -135,6 +136,15 @@ pub struct SimpleStats {
     /// a repeat run covers points of more than one contour
     pub repeat_spans_contours: bool,
     pub repeat_count_zero: usize,
+    /// largest repeat count byte written (0 when no run was written)
+    pub repeat_count_max: usize,
+    /// runs written with count byte 253 / 254 / 255 (the field's upper boundary)
+    pub repeat_count_253: usize,
+    pub repeat_count_254: usize,
+    pub repeat_count_255: usize,
+    /// a run with count byte 255 is immediately followed by another identical flag
+    /// (a stretch of more than 256 identical flags had to be split)
+    pub split_after_full_run: usize,
     pub short_positive: usize,
     pub short_negative: usize,
     pub short_zero: usize,
@@ -244,9 +254,11 @@ pub fn encode_simple(g: &SimpleGlyph, enc: &Encoding) -> Result<(Vec<u8>, Simple
                         None
                     }
                 } else {
-                    match ch.below(4) {
+                    match ch.below(8) {
                         0 => None,
                         1 => Some(ch.below(run + 1)),
+                        // just below the maximal run (count bytes 253/254 for long stretches)
+                        2 => Some(run - ch.below(run.min(3))),
                         _ => Some(run),
                     }
                 }
@@ -262,6 +274,18 @@ pub fn encode_simple(g: &SimpleGlyph, enc: &Encoding) -> Result<(Vec<u8>, Simple
                 stats.repeat_runs += 1;
                 if k == 0 {
                     stats.repeat_count_zero += 1;
+                }
+                stats.repeat_count_max = stats.repeat_count_max.max(k);
+                match k {
+                    253 => stats.repeat_count_253 += 1,
+                    254 => stats.repeat_count_254 += 1,
+                    255 => {
+                        stats.repeat_count_255 += 1;
+                        if flags.get(i + k + 1) == Some(&f) {
+                            stats.split_after_full_run += 1;
+                        }
+                    }
+                    _ => {}
                 }
                 if contour_of[i] != contour_of[i + k] {
                     stats.repeat_spans_contours = true;
